@@ -10,6 +10,8 @@ import (
 	"github.com/multiformats/go-multihash"
 
 	"github.com/ucan-wg/go-ucan/token"
+	"github.com/ucan-wg/go-ucan/token/delegation"
+	"github.com/ucan-wg/go-ucan/token/invocation"
 
 	"verifharness/engine"
 )
@@ -152,4 +154,110 @@ func c07AgainAlgs(tier string) []string {
 		return []string{"ed25519", "secp256k1", "p256", "p384", "p521", "rsa2048", "rsa3072"}
 	}
 	return []string{"ed25519", "secp256k1", "p256", "rsa2048"}
+}
+
+// ---- one bytes.Buffer as a pipe for several round trips ----
+
+type c07PipeCase struct {
+	Kind string `json:"kind"`
+	Alg  string `json:"alg"`
+	API  int    `json:"api"` // index into c07PipeAPIs
+	N    int    `json:"n"`   // number of round trips
+}
+
+func (c *c07PipeCase) Weight() int { return c.N }
+
+var c07PipeAPIs = []string{"ToSealedWriter->token.FromSealedReader", "ToSealedWriter->typed.FromSealedReader", "ToDagCborWriter->typed.FromDagCborReader", "ToDagJsonWriter->typed.FromDagJsonReader", "ToDagJsonWriter->token.FromDagJsonReader"}
+
+func c07PipeSub() *engine.Sub {
+	return &engine.Sub{
+		Name: "one-buffer-as-a-pipe",
+		Rule: "N tokens (distinct nonces) travel one after the other through ONE *bytes.Buffer that is never reset: writer API into the buffer, reader API out of it, for each of 5 writer/reader pairings: every token comes out with the fields it went in with, and the buffer is empty after every read (a reader consumes what it decodes); non-trivial = N >= 2",
+		Bound: func(t string) string {
+			return fmt.Sprintf("2 kinds x %d algorithms x 5 API pairings x N in {1, 2, 3}", len(c07AgainAlgs(t)))
+		},
+		Gen: func(tier string, emit func(any) bool) {
+			for _, kind := range []string{"dlg", "inv"} {
+				for _, alg := range c07AgainAlgs(tier) {
+					for api := range c07PipeAPIs {
+						for n := 1; n <= 3; n++ {
+							if !emit(&c07PipeCase{Kind: kind, Alg: alg, API: api, N: n}) {
+								return
+							}
+						}
+					}
+				}
+			}
+		},
+		NewCase: func() any { return &c07PipeCase{} },
+		Run: func(ctx *engine.Ctx, c any) {
+			cs := c.(*c07PipeCase)
+			var buf bytes.Buffer
+			ctx.States(1)
+			if cs.N >= 2 {
+				ctx.Nontrivial(1)
+			}
+			for i := 0; i < cs.N; i++ {
+				tok, key, err := BuildToken(TokSpec{Kind: cs.Kind, Alg: cs.Alg, Opts: map[string]string{"nonce": fmt.Sprintf("ctr:%d", i), "iat": "none"}})
+				if err != nil {
+					panic(err)
+				}
+				want := ViewOf(tok)
+				w := tok.(tokenWriter)
+				switch cs.API {
+				case 0, 1:
+					_, err = w.ToSealedWriter(&buf, key.Priv)
+				case 2:
+					err = w.ToDagCborWriter(&buf, key.Priv)
+				default:
+					err = w.ToDagJsonWriter(&buf, key.Priv)
+				}
+				if err != nil {
+					ctx.Failf(cs, "pipe/write-fails", "round trip #%d: %s fails writing into the buffer: %v", i+1, c07PipeAPIs[cs.API], err)
+					return
+				}
+				var got any
+				switch cs.API {
+				case 0:
+					got, _, err = token.FromSealedReader(&buf)
+				case 1:
+					if cs.Kind == "dlg" {
+						got, _, err = delegation.FromSealedReader(&buf)
+					} else {
+						got, _, err = invocation.FromSealedReader(&buf)
+					}
+				case 2:
+					if cs.Kind == "dlg" {
+						got, err = delegation.FromDagCborReader(&buf)
+					} else {
+						got, err = invocation.FromDagCborReader(&buf)
+					}
+				case 3:
+					if cs.Kind == "dlg" {
+						got, err = delegation.FromDagJsonReader(&buf)
+					} else {
+						got, err = invocation.FromDagJsonReader(&buf)
+					}
+				default:
+					got, err = token.FromDagJsonReader(&buf)
+				}
+				ctx.Eval(1)
+				ctx.Trans(1)
+				if err != nil {
+					ctx.Outcome("read-fails")
+					ctx.Failf(cs, "pipe/read-fails-on-trip-"+fmt.Sprint(i+1), "round trip #%d through one buffer (%s): the reader fails: %v", i+1, c07PipeAPIs[cs.API], err)
+					return
+				}
+				if diff := DiffViews(want, ViewOf(got)); len(diff) > 0 {
+					ctx.Failf(cs, "pipe/wrong-token-on-trip-"+fmt.Sprint(i+1), "round trip #%d through one buffer (%s): the token read differs from the one written on %v", i+1, c07PipeAPIs[cs.API], diff)
+					return
+				}
+				if buf.Len() != 0 {
+					ctx.Failf(cs, "pipe/reader-leaves-bytes-behind", "round trip #%d (%s): %d bytes are still in the buffer after the reader returned the token", i+1, c07PipeAPIs[cs.API], buf.Len())
+					return
+				}
+				ctx.Outcome("ok")
+			}
+		},
+	}
 }
